@@ -71,7 +71,9 @@ class C18(Prop):
                 evt = [t for t, _ in sl.event_times(cfg['start'], cfg['end'])]
                 c['extra_queries'] += [[a_, t] for a_ in c['assets'] for t in rng.sample(evt, min(len(evt), 12))]
             c['mode'] = 'twice'
-            if c['market']['kind'] == 'csv' and rng.random() < 0.3:
+            if c['market']['kind'] == 'csv' and c['cfg'].get('lookbacks') is None and rng.random() < 0.4:
+                c['mode'] = 'default_pending'
+            elif c['market']['kind'] == 'csv' and rng.random() < 0.3:
                 c['mode'] = 'prequeried'
                 c['stream'] += ':prequeried'
             elif c['market']['kind'] == 'csv' and rng.random() < 0.6:
@@ -105,6 +107,15 @@ class C18(Prop):
                 c['mode'] = 'same_dir'
                 c['event_times'] = [[t, k] for t, k in sl.event_times(c['cfg']['start'], c['cfg']['end'])]
                 c['stream'] += ':same-dir-other-adjust'
+            elif c['mode'] == 'default_pending':
+                # sessions that build their OWN data handler from QSTRADER_CSV_DATA_DIR: one on another directory (same symbols,
+                # other prices) runs first in the process, then the session under test; baseline = explicit handler
+                cfg = c['cfg']
+                c['market'] = csv_market(rng, c['assets'], cfg['start'] // DAY, cfg['end'] // DAY, c['exact'], adjust=True)
+                c['market2'] = csv_market(rng, c['assets'], cfg['start'] // DAY, cfg['end'] // DAY, c['exact'], adjust=True)
+                c['default_handler'] = True
+                c['mode'] = 'default_after_other'
+                c['stream'] += ':default-dir-after-other-dir'
             out.append(c)
         return out
 
